@@ -308,3 +308,206 @@ Proof.
   destruct (Hwfm mn Hmn) as (? & ? & ?). destruct (Hwfm mx Hmx) as (? & ? & ?).
   destruct (Hall mn Hmn). destruct (Hall mx Hmx). repeat split; lia.
 Qed.
+
+(* ====================================================================================
+   The full pipeline model (linear and circular records)
+   ==================================================================================== *)
+
+(* ---------- the per-cutoff cache of apply_cluster_rules is transparent ---------- *)
+Section CacheProofs.
+Variable N : Z.
+Variable circular : bool.
+Variable gs : list gene.
+Variable hs : hits.
+
+Definition cache_ok (g : gene) (cache : list (Z * info)) : Prop :=
+  forall k i, lookup k cache = Some i -> gene_info N circular gs g k = Ok i.
+
+Lemma rules_loop_cache g rs : forall cache cache' ri acc, cache_ok g cache ->
+  rules_loop N circular gs hs true g cache ri rs acc = rules_loop N circular gs hs false g cache' ri rs acc.
+Proof.
+  induction rs as [|r rest IH]; intros cache cache' ri acc Hok; [reflexivity|].
+  cbn [rules_loop].
+  destruct (lookup (r_cut r) cache) as [i|] eqn:Hl.
+  - rewrite (Hok _ _ Hl). cbn [bind].
+    destruct (eval_rule hs g ri r i acc) as [acc'|k]; cbn [bind]; [|reflexivity].
+    apply IH. exact Hok.
+  - destruct (gene_info N circular gs g (r_cut r)) as [i|k] eqn:Hg; cbn [bind]; [|reflexivity].
+    destruct (eval_rule hs g ri r i acc) as [acc'|k]; cbn [bind]; [|reflexivity].
+    apply IH. intros k' i' Hl'. cbn [lookup] in Hl'.
+    destruct (k' =? r_cut r) eqn:He.
+    + apply Z.eqb_eq in He. subst k'. inversion Hl'. subst i'. exact Hg.
+    + apply Hok. exact Hl'.
+Qed.
+
+Lemma fold_cache (rules : list rule) (l : list gene) : forall a,
+  fold_left (fun acc g => do a <- acc; rules_loop N circular gs hs true g [] 0 rules a) l a =
+  fold_left (fun acc g => do a <- acc; rules_loop N circular gs hs false g [] 0 rules a) l a.
+Proof.
+  induction l as [|g l IH]; intro a; [reflexivity|]. cbn [fold_left].
+  replace (do a0 <- a; rules_loop N circular gs hs true g [] 0 rules a0)
+     with (do a0 <- a; rules_loop N circular gs hs false g [] 0 rules a0).
+  - apply IH.
+  - destruct a as [a0|k]; cbn [bind]; [|reflexivity]. symmetry. apply rules_loop_cache.
+    intros k i H. discriminate H.
+Qed.
+
+Lemma cache_transparent (rules : list rule) :
+  apply_cluster_rules N circular gs hs rules true = apply_cluster_rules N circular gs hs rules false.
+Proof. unfold apply_cluster_rules. apply fold_cache. Qed.
+End CacheProofs.
+
+(* ---------- remove_redundant_protoclusters: the loops decide "some superior cluster overlaps
+   in gene order" ---------- *)
+Section SuperiorProofs.
+Variable gs : list gene.
+
+(* the test the loops apply to one cluster [o] of a superior rule *)
+Definition sup_overlaps (core first last o : loc) : bool :=
+  contains o core ||
+  match first_last gs o with
+  | Ok fl => negb (klt (snd fl) first) && negb (klt last (fst fl))
+  | Err _ => false
+  end.
+
+Definition lookups_ok (others : list loc) : Prop :=
+  forall o, In o others -> exists fl, first_last gs o = Ok fl.
+
+Lemma red_inner_spec core first last others : forall red, lookups_ok others ->
+  red_inner gs core first last others red = Ok (red || existsb (sup_overlaps core first last) others).
+Proof.
+  induction others as [|o rest IH]; intros red Hok.
+  - cbn. rewrite orb_false_r. reflexivity.
+  - cbn [red_inner existsb]. unfold sup_overlaps at 1.
+    assert (Hrest : lookups_ok rest) by (intros x Hx; apply Hok; right; exact Hx).
+    destruct (contains o core) eqn:Hc.
+    + rewrite IH by exact Hrest. cbn. rewrite !orb_true_r. reflexivity.
+    + destruct (Hok o (or_introl eq_refl)) as [fl Hfl]. rewrite Hfl. cbn [bind orb].
+      destruct (klt (snd fl) first) eqn:H1; cbn [negb andb orb].
+      * apply IH. exact Hrest.
+      * destruct (klt last (fst fl)) eqn:H2; cbn [negb andb orb].
+        -- apply IH. exact Hrest.
+        -- rewrite orb_true_r. reflexivity.
+Qed.
+
+Definition cores_of (all : list proto) (s : Z) : list loc :=
+  map p_core (filter (fun q => p_rule q =? s) all).
+
+Lemma red_outer_spec all core first last : forall sups,
+  (forall s, In s sups -> lookups_ok (cores_of all s)) ->
+  red_outer gs all core first last sups =
+  Ok (existsb (fun s => existsb (sup_overlaps core first last) (cores_of all s)) sups).
+Proof.
+  induction sups as [|s rest IH]; intro Hok; [reflexivity|].
+  cbn [red_outer existsb]. fold (cores_of all s).
+  rewrite red_inner_spec by (apply Hok; left; reflexivity). cbn [bind orb].
+  destruct (existsb (sup_overlaps core first last) (cores_of all s)); cbn [orb]; [reflexivity|].
+  apply IH. intros x Hx. apply Hok. right. exact Hx.
+Qed.
+
+Lemma is_redundant_spec (rules : list rule) all p b :
+  (forall q, In q all -> exists fl, first_last gs (p_core q) = Ok fl) ->
+  is_redundant gs rules all p = Ok b ->
+  exists first last, first_last gs (p_core p) = Ok (first, last) /\
+  (b = true <->
+   exists s o, In s (r_sup (nth_rule rules (p_rule p))) /\ In o all /\ p_rule o = s /\
+               sup_overlaps (p_core p) first last (p_core o) = true).
+Proof.
+  intros Hall H. unfold is_redundant in H.
+  destruct (first_last gs (p_core p)) as [[first last]|k] eqn:Hfl; cbn [bind fst snd] in H; [|discriminate H].
+  exists first, last. split; [reflexivity|].
+  rewrite red_outer_spec in H.
+  - inversion H as [Hb]. clear H. split.
+    + intro Ht. apply existsb_exists in Ht. destruct Ht as [s [Hs Hex]].
+      apply existsb_exists in Hex. destruct Hex as [oc [Hoc Hov]].
+      unfold cores_of in Hoc. apply in_map_iff in Hoc. destruct Hoc as [o [Ho1 Ho2]].
+      apply filter_In in Ho2. destruct Ho2 as [Hin Heq]. apply Z.eqb_eq in Heq.
+      exists s, o. subst oc. repeat split; assumption.
+    + intros [s [o [Hs [Hin [Heq Hov]]]]].
+      apply existsb_exists. exists s. split; [exact Hs|].
+      apply existsb_exists. exists (p_core o). split; [|exact Hov].
+      unfold cores_of. apply in_map. apply filter_In. split; [exact Hin|]. apply Z.eqb_eq. exact Heq.
+  - intros s _ oc Hoc. unfold cores_of in Hoc. apply in_map_iff in Hoc. destruct Hoc as [o [Ho1 Ho2]].
+    apply filter_In in Ho2. destruct Ho2 as [Hin _]. subst oc. apply Hall. exact Hin.
+Qed.
+End SuperiorProofs.
+
+(* ---------- apply_extenders: what mark_extendable yields ---------- *)
+Section ExtenderProofs.
+Variable N : Z.
+Variable circular : bool.
+Variable hs : hits.
+Variable r : rule.
+Variable core0 : loc.
+Let w := wrap_of N circular.
+
+Definition outside (g : gene) : bool := negb (contains core0 (snd g)).
+
+(* a run: every gene outside the core satisfies the extender condition and is within the cutoff
+   (distance <= cutoff, as the code breaks on >) of the previous accepted gene *)
+Fixpoint run_ok (prev : loc) (l : list gene) : Prop :=
+  match l with
+  | [] => True
+  | g :: rest =>
+    if outside g then dist (snd g) prev w <= r_cut r /\ can_extend hs r g = true /\ run_ok (snd g) rest
+    else run_ok prev rest
+  end.
+Fixpoint last_loc (prev : loc) (l : list gene) : loc :=
+  match l with [] => prev | g :: rest => last_loc (if outside g then snd g else prev) rest end.
+
+(* soundness: everything yielded is outside the old core and satisfies the extender condition *)
+Lemma mark_sound walk : forall prev g, In g (mark N circular hs r core0 prev walk) ->
+  In g walk /\ outside g = true /\ can_extend hs r g = true.
+Proof.
+  induction walk as [|x rest IH]; intros prev g Hin; [destruct Hin|].
+  cbn [mark] in Hin. unfold outside.
+  destruct (contains core0 (snd x)) eqn:Hc.
+  - destruct (IH _ _ Hin) as (H1 & H2 & H3). repeat split; [right; exact H1|exact H2|exact H3].
+  - destruct (r_cut r <? dist (snd x) prev (wrap_of N circular)) eqn:Hd; [destruct Hin|].
+    destruct (can_extend hs r x) eqn:He.
+    + destruct Hin as [<-|Hin].
+      * repeat split; [left; reflexivity|rewrite Hc; reflexivity|exact He].
+      * destruct (IH _ _ Hin) as (H1 & H2 & H3). repeat split; [right; exact H1|exact H2|exact H3].
+    + destruct (IH _ _ Hin) as (H1 & H2 & H3). repeat split; [right; exact H1|exact H2|exact H3].
+Qed.
+
+(* completeness: a run is accepted as a whole, and the walk continues behind it from its last gene *)
+Lemma mark_run pre : forall prev post, run_ok prev pre ->
+  mark N circular hs r core0 prev (pre ++ post) =
+  filter outside pre ++ mark N circular hs r core0 (last_loc prev pre) post.
+Proof.
+  induction pre as [|x rest IH]; intros prev post Hrun; [reflexivity|].
+  cbn [app mark filter last_loc run_ok] in *. unfold outside in *.
+  destruct (contains core0 (snd x)) eqn:Hc; cbn [negb] in *.
+  - apply IH. exact Hrun.
+  - destruct Hrun as (Hd & He & Hrest). fold w.
+    assert (Hlt : (r_cut r <? dist (snd x) prev w) = false) by (apply Z.ltb_ge; exact Hd).
+    rewrite Hlt, He. cbn [app]. f_equal. apply IH. exact Hrest.
+Qed.
+
+(* maximality: the walk stops at the first gene outside the core that is farther than the cutoff *)
+Lemma mark_stop skip g rest prev :
+  forallb (fun x => negb (outside x)) skip = true -> outside g = true ->
+  r_cut r < dist (snd g) prev w ->
+  mark N circular hs r core0 prev (skip ++ g :: rest) = [].
+Proof.
+  induction skip as [|x skip IH]; intros Hskip Hg Hd.
+  - cbn [app mark]. unfold outside in Hg. apply negb_true_iff in Hg. rewrite Hg. fold w.
+    assert (Hlt : (r_cut r <? dist (snd g) prev w) = true) by (apply Z.ltb_lt; exact Hd).
+    rewrite Hlt. reflexivity.
+  - cbn [forallb] in Hskip. apply andb_true_iff in Hskip. destruct Hskip as [Hx Hskip].
+    cbn [app mark]. unfold outside in Hx. rewrite negb_involutive in Hx. rewrite Hx.
+    apply IH; assumption.
+Qed.
+End ExtenderProofs.
+
+(* the core only grows along accepted genes: on a linear record connect_locations is the hull
+   (C04_connect_line), here the statement is about which genes are joined *)
+Lemma extenders_none N circular hs r core0 prev walk :
+  r_ext r = None -> mark N circular hs r core0 prev walk = [].
+Proof.
+  intro Hn. revert prev. induction walk as [|x rest IH]; intro prev; [reflexivity|].
+  cbn [mark]. destruct (contains core0 (snd x)); [apply IH|].
+  destruct (r_cut r <? dist (snd x) prev (wrap_of N circular)); [reflexivity|].
+  unfold can_extend. rewrite Hn. apply IH.
+Qed.
